@@ -3,10 +3,10 @@ from __future__ import annotations
 
 from typing import Dict, List, Optional, Sequence, Tuple
 
-from .rules import ancestry, bits, cost, decode, dp, events, geom, purity, render, serial, utils
+from .rules import ancestry, bits, cost, decode, dp, events, extra, geom, purity, render, serial, utils
 
 RULES = {}
-for _m in (ancestry, bits, dp, decode, cost, events, purity, serial, utils, geom, render):
+for _m in (ancestry, bits, dp, decode, cost, events, purity, serial, utils, geom, render, extra):
     RULES.update(_m.RULES)
 
 # construct prefixes
@@ -51,6 +51,7 @@ PROPERTY_RULES: Dict[str, List[Scoped]] = {
         _r("COST-TRUTH", S_THL), _r("READONLY-INPUT", S_THL), _r("ITERATOR-REUSE", S_THL), _r("MEMO-KEY", S_THL),
         _r("DERIVED-QUERIES"), _r("OPTIONAL-CHECKED", S_THL), _r("RESULT-UNCONDITIONAL", S_THL),
         _r("ENUM-PLACEMENTS"),
+        _r("COST-GUARD", S_THL), _r("ENUM-NO-TRUNCATION", ("compute.exhaustive:", "compute.reconciliation:")), _r("HASH-IDENTITY", S_COMPUTE + S_MODEL),
     ],
     "C02": [
         _r("SENTINEL", S_SPFS, S_SUBSEQ), _r("COSTKEYS", S_SPFS), _r("PRUNE", S_SPFS), _r("EVENT-SIG", S_SPFS),
@@ -61,6 +62,7 @@ PROPERTY_RULES: Dict[str, List[Scoped]] = {
         _r("SOLVER-STATELESS", P_SPFS), _r("READONLY-GRAPH"),
         _r("COST-TRUTH", S_SPFS), _r("READONLY-INPUT", S_SPFS), _r("ITERATOR-REUSE", S_SPFS + S_MODEL), _r("MEMO-KEY", S_SPFS),
         _r("RESULT-UNCONDITIONAL", S_SPFS), _r("OPTIONAL-CHECKED", S_SPFS), _r("NONE-SENTINEL-TRUTH", S_SUBSEQ),
+        _r("EVENT-TABLE"), _r("ROOT-ORDER-SOURCE"), _r("COST-GUARD", S_SPFS), _r("OUTPUT-FLAG", S_SPFS),
     ],
     "C03": [
         _r("READONLY-DECODE", S_USPFS), _r("COSTKEYS", S_USPFS), _r("PRUNE", S_USPFS), _r("EVENT-SIG", S_USPFS),
@@ -71,6 +73,7 @@ PROPERTY_RULES: Dict[str, List[Scoped]] = {
         _r("DECODE-CONTENT-FLOW"), _r("SOLVER-STATELESS", P_USPFS),
         _r("COST-TRUTH", S_USPFS), _r("READONLY-INPUT", S_USPFS), _r("ITERATOR-REUSE", S_USPFS + S_MODEL), _r("MEMO-KEY", S_USPFS),
         _r("RESULT-UNCONDITIONAL", S_USPFS), _r("ELEMENT-UPDATE", S_USPFS),
+        _r("EVENT-TABLE"), _r("COST-GUARD", S_USPFS), _r("OUTPUT-FLAG", S_USPFS), _r("SET-ALGEBRA-ARGS"),
     ],
     "C04": [
         _r("DECODE-GUARD"), _r("DECODE-COMPLETE"), _r("LEAF-ANCHOR"), _r("SENTINEL"), _r("READONLY-DECODE"),
@@ -78,6 +81,7 @@ PROPERTY_RULES: Dict[str, List[Scoped]] = {
         _r("DECODE-CONTENT-FLOW"),
         _r("SOLVER-STATELESS", P_SOLVE), _r("MEMO-KEY"), _r("READONLY-INPUT"), _r("ORDER-PRESERVED"), _r("NO-PRUNED-TRAVERSAL", S_COMPUTE + S_MODEL),
         _r("LABEL-GUARD"), _r("RECURSE-FORWARD", S_TREES), _r("ELEMENT-UPDATE"), _r("FIELD-SOURCE"),
+        _r("COST-PASSTHROUGH", S_MODEL), _r("GRAPH-KEYS"), _r("SET-ALGEBRA-ARGS"), _r("OUTPUT-FLAG"), _r("KEY-GUARD", S_MODEL + S_COMPUTE),
     ],
     "C05": [
         _r("POLICY-FLOW"), _r("DECODE-PRODUCT"), _r("RESULT-SCOPE"), _r("PRUNE"), _r("UPDATE-PAIRING"),
@@ -89,6 +93,7 @@ PROPERTY_RULES: Dict[str, List[Scoped]] = {
         _r("MEMO-KEY"), _r("EQ-BY-FIELDS"), _r("ITERATOR-REUSE", S_COMPUTE),
         _r("BASE-EXT-SHARE"), _r("RESULT-UNCONDITIONAL"),
         _r("ENUM-PLACEMENTS"),
+        _r("EVENT-TABLE"), _r("ENUM-NO-TRUNCATION", S_COMPUTE), _r("HASH-IDENTITY", S_COMPUTE + S_MODEL), _r("COST-GUARD"),
     ],
     "C06": [
         _r("MODEL-TABLE"), _r("LABEL-SIBLINGS"), _r("EVENT-EXHAUSTIVE"), _r("EVENT-TABLE"), _r("CONSERVED-SIDE"),
@@ -102,6 +107,7 @@ PROPERTY_RULES: Dict[str, List[Scoped]] = {
         _r("SOLVER-STATELESS", ("compute.reconciliation:reconcile_lca", "utils.trees:LowestCommonAncestor", "utils.trees:_euler", "utils.range_min_query:")),
         _r("READONLY-INPUT", ("compute.reconciliation:reconcile_lca",)), _r("COST-TRUTH", S_MODEL),
         _r("MODEL-TABLE", ("model.reconciliation:rec/",)), _r("EVENT-TABLE"),
+        _r("RMQ-WINDOWS"), _r("EULER-INDEX"),
     ],
     "C08": [
         _r("TREE-WRITE-ARGS"), _r("FIELDS-SERIALISED"), _r("DICT-KEYS"), _r("FEATURE-COPY"),
@@ -110,6 +116,8 @@ PROPERTY_RULES: Dict[str, List[Scoped]] = {
         _r("TRAVERSAL", ("utils.trees:binarize",)), _r("RECURSE-FORWARD", S_TREES), _r("LABEL-GUARD"),
         _r("ITERATOR-REUSE", S_MODEL + S_TREES + S_COMPUTE), _r("ORDER-PRESERVED"),
         _r("RESULT-UNCONDITIONAL", S_SPFS, S_USPFS), _r("FIELD-SOURCE"), _r("SOLVER-STATELESS", S_TREES + S_MODEL),
+        _r("BINARIZE-GUARD"), _r("NAME-AS-KEY"), _r("ENUM-NO-TRUNCATION", ("utils.trees:binarize", "utils.trees:graft", "utils.trees:arrange_leaves", "model.reconciliation:")),
+        _r("COST-PASSTHROUGH", S_MODEL), _r("COPY-FAITHFUL", S_TREES + S_MODEL),
     ],
     "C09": [
         _r("MIRROR"), _r("CLASS-DOMAIN"), _r("COST-HOMOGENEOUS"), _r("READONLY-DECODE"),
@@ -123,18 +131,21 @@ PROPERTY_RULES: Dict[str, List[Scoped]] = {
         _r("BASE-EXT-SHARE"), _r("EVENT-SIG"), _r("COSTKEYS"), _r("SIBLING-PAIRING"), _r("READONLY-DECODE"),
         _r("SOLVER-STATELESS", P_SOLVE),
         _r("CLASS-DOMAIN"), _r("MIRROR"),
+        _r("EVENT-TABLE"), _r("DECODE-CONTENT-FLOW"), _r("COST-GUARD"),
     ],
     "C11": [
         _r("DICT-KEYS"), _r("FIELDS-SERIALISED"), _r("TREE-WRITE-ARGS"), _r("ENUM-DISJOINT"), _r("MAPPING-KEYING"),
         _r("COST-PASSTHROUGH", S_MODEL), _r("SOLVER-STATELESS", S_MODEL + S_TREES),
         _r("COST-TRUTH", S_MODEL), _r("ORDER-PRESERVED"),
         _r("FIELD-SOURCE"),
+        _r("KEY-GUARD", S_MODEL), _r("COST-KEY-RESOLUTION"), _r("SORT-KEY-ALIGNED"), _r("COPY-FAITHFUL", S_MODEL),
     ],
     "C12": [
         _r("LABEL-GUARD"), _r("REGISTRY-SIGNATURE"), _r("CHOICES-ENUM"),
         _r("ERROR-PATH"), _r("COST-OPTIONS"), _r("CLI-COST-SOURCE"), _r("COST-PASSTHROUGH"), _r("DISPATCH-KEYS"),
         _r("COST-TRUTH", S_CLI + S_MODEL), _r("FIELD-COPY-COMPLETE", S_CLI), _r("RESULT-SCOPE"),
         _r("LABEL-PASS", ("cli.", "compute.")), _r("LAYOUT-SIDES"), _r("LOSS-CHAIN"), _r("SORT-KEY-ALIGNED"), _r("RESULT-UNCONDITIONAL"),
+        _r("TREE-WRITE-ARGS"), _r("KEY-GUARD", S_CLI + S_MODEL), _r("COST-KEY-RESOLUTION"),
     ],
     "C13": [
         _r("KIND-EXHAUSTIVE"), _r("KIND-AGREE"), _r("ONE-EVENT-NODE"), _r("ONE-ARROW"), _r("LOSS-MARKERS"),
@@ -142,6 +153,7 @@ PROPERTY_RULES: Dict[str, List[Scoped]] = {
         _r("NO-PRUNED-TRAVERSAL", S_RENDER), _r("LOSS-CHAIN"), _r("SIGMA-DRAW"), _r("LAYOUT-SIDES"),
         _r("NO-TOPOLOGY-WRITE"),
         _r("PLACED-IN-SPECIES"),
+        _r("LEAF-MAP-DOMAIN"),
     ],
     "C14": [
         _r("SIGMA-INVARIANCE"), _r("SIGMA-CLOSURE"), _r("SOLVER-STATELESS", ("render.layout:", "utils.geometry:")),
@@ -156,11 +168,13 @@ PROPERTY_RULES: Dict[str, List[Scoped]] = {
         _r("COLOR-INHERIT"),
         _r("ORDER-PRESERVED"), _r("SOLVER-STATELESS", ("utils.text:", "utils.tex:", "render.", "model.synteny:")), _r("MEMO-KEY"),
         _r("LABEL-SOURCE"),
+        _r("WIDTH-VERBATIM"),
     ],
     "C16": [
         _r("UPDATE-PAIRING"), _r("RETENTION-GUARDS"), _r("POLARITY"), _r("PROXY-NONE"), _r("COMBINE-PRODUCT"),
         _r("TABLE-FRESH-CELLS"),
         _r("ENTRY-OWNS-TAGS"), _r("SOLVER-STATELESS", S_DP),
+        _r("ENTRY-CTOR"),
     ],
     "C17": [
         _r("DERIVED-QUERIES"), _r("EULER-INDEX"), _r("RMQ-WINDOWS"),
@@ -175,12 +189,15 @@ PROPERTY_RULES: Dict[str, List[Scoped]] = {
         _r("EMPTY-RESULT-GUARD"),
         _r("SOLVER-STATELESS", ("utils.toposort:",)), _r("MEMO-KEY", ("utils.toposort:",)),
         _r("KAHN-LOOP"),
+        _r("TOPO-VERDICT"), _r("ENUM-NO-TRUNCATION", ("utils.toposort:",)),
     ],
     "C20": [
         _r("COPY-BEFORE-MUTATE"),
         _r("FRESH-ATTACH", ("utils.trees:tree_", "utils.trees:all_trees", "utils.trees:trees_")),
         _r("GROUPS-PAIRING"), _r("LEAVES-SOURCE"),
         _r("SOLVER-STATELESS", ("utils.trees:", "utils.disjoint_set:")), _r("OPTIONAL-CHECKED", S_TREES), _r("MEMO-KEY", ("utils.trees:", "utils.disjoint_set:")),
+        _r("ITERATOR-REUSE", S_TREES), _r("COPY-FAITHFUL", ("utils.trees:", "utils.disjoint_set:")),
+        _r("ENUM-NO-TRUNCATION", ("utils.trees:all_trees", "utils.disjoint_set:")), _r("NAME-AS-KEY"),
     ],
 }
 
